@@ -127,6 +127,22 @@ Theorem C11_constant_zero_matrix :
 Proof. exact constant_zero_matrix. Qed.
 Print Assumptions C11_constant_zero_matrix.
 
+(* Certificate (ii), the link between model (A) and the code's local systems: for ANY
+   captured local matrix LA and right-hand side matrices (in the FL / BF slots of I), a bound
+   on the residual "LA (constant gradient of the field) - right-hand side built from the
+   field" for the four basis fields on row r bounds it for every linear field — i.e. the
+   hypothesis C11_linear_solves_local holds on the ACTUAL rows (up to the band) once the
+   run-time check has established it for 1, x, y, z. *)
+Theorem C11_local_rows_linear_extension :
+  forall (I : inst R) (LA : coo R) (nd r : nat) (t0 t1 t2 t3 : R),
+    Rabs (res_local R RO I LA nd re0 r) <= t0 -> Rabs (res_local R RO I LA nd re1 r) <= t1 ->
+    Rabs (res_local R RO I LA nd re2 r) <= t2 -> Rabs (res_local R RO I LA nd re3 r) <= t3 ->
+    forall b ax ay az : R,
+      Rabs (rrow_apply LA r (gstar R (b, (ax, ay, az)) nd) - rflux_of I (b, (ax, ay, az)) r)
+      <= Rabs b * t0 + Rabs ax * t1 + Rabs ay * t2 + Rabs az * t3.
+Proof. exact local_rows_linear_extension. Qed.
+Print Assumptions C11_local_rows_linear_extension.
+
 (* Non-vacuity (A): a concrete 2-D boundary interaction region (two sub-cells, interior,
    Dirichlet and Neumann sub-face, K = [[2,1],[1,3]], p = 3 + x - 2y) with an explicit left
    inverse satisfies all hypotheses of C11_unique_exact. *)
